@@ -53,7 +53,7 @@ def tier_runs(tier):
 
 
 def tier_budget_s(tier):
-    return 600 if tier == "quick" else 5400
+    return 1200 if tier == "quick" else 9000
 
 
 def worker_init(ctx):
@@ -217,23 +217,44 @@ def _trial_child(w, dbmap, plan, arm, watch, retry, twice, known_shas=()):
         sh.verif_watch(watch.encode())
         if arm:
             sh.verif_arm(arm)
-    r1 = storeops.exec_op(w, dbmap, state)
-    out = {"r1": _slim(r1), "events": [list(e) for e in sqlseam.events()], "fired": sqlseam.fired()}
-    if sh is not None:
-        n = sh.verif_count()
-        out["syscalls"] = [sh.verif_kind(i) for i in range(1, min(n, 4000) + 1)]
-        sh.verif_unwatch()
-    if retry or twice:
+    out = {}
+
+    def audit_and_retry():
+        """Audit the file as the faulted attempt left it, then issue the same call again, fault-free."""
+        got = {"events": [list(e) for e in sqlseam.events()], "fired": sqlseam.fired()}
+        if sh is not None:
+            n = sh.verif_count()
+            got["syscalls"] = [sh.verif_kind(i) for i in range(1, min(n, 4000) + 1)]
+            sh.verif_unwatch()
         mid = c08.dump_db(dbmap[w["db"]])
-        out["mid_sha"] = c08.dump_sha(mid)
-        out["mid_clean"] = c08.dump_clean(mid)
-        out["mid_stray"] = sorted(n for n in os.listdir(os.path.dirname(dbmap[w["db"]]))
+        got["mid_sha"] = c08.dump_sha(mid)
+        got["mid_clean"] = c08.dump_clean(mid)
+        got["mid_stray"] = sorted(n for n in os.listdir(os.path.dirname(dbmap[w["db"]]))
                                   if n != os.path.basename(dbmap[w["db"]]))
-        if out["mid_sha"] not in known_shas or not out["mid_clean"]:
-            out["mid_dump"] = mid
+        if got["mid_sha"] not in known_shas or not got["mid_clean"]:
+            got["mid_dump"] = mid
         sqlseam.reset(None)
-        r2 = storeops.exec_op(w, dbmap, state)
-        out["r2"] = _slim(r2)
+        got["r2"] = _slim(storeops.exec_op(w, dbmap, state))
+        return got
+
+    want_retry = retry or twice
+    # a failed attempt is retried by a caller who is still inside its `except` block (the exception, and whatever
+    # it keeps alive, still exist); a successful one is simply followed by the second call
+    r1 = storeops.exec_op(w, dbmap, state, on_failure=(audit_and_retry if want_retry else None))
+    out["r1"] = _slim(r1)
+    if "held" in r1:
+        out.update(r1["held"])
+        out["retried_holding_exception"] = True
+    else:
+        if want_retry:
+            out.update(audit_and_retry())
+        else:
+            out["events"] = [list(e) for e in sqlseam.events()]
+            out["fired"] = sqlseam.fired()
+            if sh is not None:
+                n = sh.verif_count()
+                out["syscalls"] = [sh.verif_kind(i) for i in range(1, min(n, 4000) + 1)]
+                sh.verif_unwatch()
     return out
 
 
